@@ -129,11 +129,19 @@ static value_t g_fill_storage;
 static fill_t fill_value() { pt::set_pix(g_fill_storage, pt::pattern_pix(vh::seed(), 3, 5, 6, pt::nch<value_t>::value)); return fill_t(g_fill_storage); }
 
 static const char* path_name(int p) {
-    static const char* n[] = {"ctor", "ctor-fill", "copy-ctor", "assign-other-size", "recreate-grow", "recreate-shrink", "recreate-realign", "recreate-fill", "ctor-from-view", "move", "swap", "assign-same-size"};
+    static const char* n[] = {"ctor", "ctor-fill", "copy-ctor", "assign-other-size", "recreate-grow", "recreate-shrink", "recreate-realign", "recreate-fill", "ctor-from-view", "move", "swap", "assign-same-size",
+                              "ctor-from-subview", "ctor-from-padded-view", "ctor-from-stepped-view", "converting-ctor", "converting-assign"};
     return n[p];
 }
-static const int NPATHS = 12;
+static const int NPATHS = 17;
+// the same pixel type in the other planarity (homogeneous organisations) - or the same image type
+typedef std::conditional<(ORG <= 11 || ORG >= 25), gil::image<value_t, !is_planar_org, alloc_t>, image_t>::type other_image_t;
 
+// a w x h source view with non-unit steps; constructing a planar image from a stepped planar view does not
+// instantiate upstream (uninitialized_copy_pixels needs plain planar iterators), so planar organisations
+// use a padded sub-view of a wider image instead
+template <class V> static auto stepped_source(V const& v, long, long, std::false_type) -> decltype(gil::flipped_left_right_view(gil::subsampled_view(v, 2, 3))) { return gil::flipped_left_right_view(gil::subsampled_view(v, 2, 3)); }
+template <class V> static V stepped_source(V const& v, long w, long h, std::true_type) { return gil::subimage_view(v, w / 2, h, w, h); }
 static void run_case(long w, long h, size_t al, int path, int depth) {
     {
         image_t img;
@@ -149,7 +157,14 @@ static void run_case(long w, long h, size_t al, int path, int depth) {
         case 8: { image_t t(w, h, 0); image_t c(gil::view(t), al); img.swap(c); break; }
         case 9: { image_t t(w, h, al); image_t c(std::move(t)); image_t d2; d2 = std::move(c); img.swap(d2); break; }
         case 10: { image_t t(w, h, al); image_t o(1, 1); swap(t, o); img.swap(o); break; }
-        default: { image_t t(w, h, al); image_t o(w, h, al == 4 ? 0 : 4); pt::fill_pattern(gil::view(t), vh::seed(), 2); o = t; img.swap(o); break; }
+        case 11: { image_t t(w, h, al); image_t o(w, h, al == 4 ? 0 : 4); pt::fill_pattern(gil::view(t), vh::seed(), 2); o = t; img.swap(o); break; }
+        // images constructed from views that are not one contiguous run of pixels
+        case 12: { image_t t(w + 3, h + 2, 0); image_t c(gil::subimage_view(gil::view(t), 2, 1, w, h), al); img.swap(c); break; }
+        case 13: { image_t t(w, h, al == 16 ? 32 : 16); image_t c(gil::view(t), al); img.swap(c); break; }
+        case 14: { image_t t(2 * w, 3 * h, 2); image_t c(stepped_source(gil::view(t), w, h, std::integral_constant<bool, is_planar_org>()), al); img.swap(c); break; }
+        // from an image of the other planarity, with a different row alignment on either side
+        case 15: { other_image_t t(w, h, al == 0 ? 8 : 0); image_t c(t); image_t d2(w, h, al); d2 = c; img.swap(d2); break; }
+        default: { other_image_t t(w, h, 4); image_t c(w, h, al); c = t; img.swap(c); break; }
         }
         if (img.width() != w || img.height() != h) {
             // F24-style dimension loss for degenerate shapes is C10's subject; here only touch what exists
